@@ -1,5 +1,6 @@
 //! vh -- conformance harness binding the TLA+ specification in /verif/spec to contentauth/c2pa-rs.
 mod common;
+mod c01;
 mod c04;
 mod c11;
 mod c13;
@@ -39,6 +40,7 @@ fn main() {
                 Err(e) => println!("{}", serde_json::json!({"state": format!("ReadErr:{}", common::err_kind(&e))})),
             }
         }
+        "c01-record" => c01::record(rest),
         "c04-replay" => c04::replay(rest),
         "c04-observe" => c04::observe(rest),
         "c04-legacy" => c04::legacy(rest),
